@@ -37,3 +37,10 @@ CASES += [
     dict(id='c01-eq-key-substr', prop='C01', file=I, expect=None,
          old="         argName.erase( equalPos);\n         mCurrElement.setArgString( mArgIndex, argName);", new="         mCurrElement.setArgString( mArgIndex, argName.substr( 0, equalPos));"),
 ]
+
+CASES += [
+    dict(id='c01-requested-value-swallows-word', prop='C01', file=I, expect='R9',
+         old="              || (mRemainingArgumentStringAsValue && (mArgCharPos > 0)))", new="              || mRemainingArgumentStringAsValue)"),
+    dict(id='c01-eq-value-decision-reordered', prop='C01', file=I, expect=None,
+         old="   } else if (mNextIsValue\n              || (mRemainingArgumentStringAsValue && (mArgCharPos > 0)))", new="   } else if ((mRemainingArgumentStringAsValue && (mArgCharPos != 0))\n              || mNextIsValue)"),
+]
